@@ -93,9 +93,11 @@ statechart:
         type: deep history
         memory: a
     - name: idle
+      on entry: x >= -1000
       transitions:
       - event: resume
         target: h
+        guard: x >= -1000
       - event: bad
         action: x -= 100
 '''
